@@ -684,6 +684,10 @@ def r6(tree, rep):
 
 
 def run(tree, rep, tier):
+    from .. import round9 as _r9
+    _r9.not_memoised(tree, rep, "C12.R9", "src/wormhole/_dilation/connection.py", "encode_record",
+                     "the records are namedtuples and compare as plain tuples - Ping(x) == Pong(x) - so the cache answers a Pong with the bytes of the Ping "
+                     "of the same id: the record the peer decodes is not the record that was sent")
     from .. import itermut
     itermut.check(tree, rep, "C12.R8", ("src/wormhole/_dilation/connection.py",),
                   "records parked while the connection waits to be selected are skipped and never reach the manager")
